@@ -7,8 +7,12 @@ mod rnum;
 mod c01;
 mod c02;
 mod c03;
+mod c04;
 mod c05;
 mod c09;
+mod c10;
+mod c11;
+mod c12;
 mod c14;
 mod c18;
 mod sut;
@@ -21,8 +25,12 @@ macro_rules! dispatch {
             "C01" => $f::<c01::C01>($($arg),*),
             "C02" => $f::<c02::C02>($($arg),*),
             "C03" => $f::<c03::C03>($($arg),*),
+            "C04" => $f::<c04::C04>($($arg),*),
             "C05" => $f::<c05::C05>($($arg),*),
             "C09" => $f::<c09::C09>($($arg),*),
+            "C10" => $f::<c10::C10>($($arg),*),
+            "C11" => $f::<c11::C11>($($arg),*),
+            "C12" => $f::<c12::C12>($($arg),*),
             "C14" => $f::<c14::C14>($($arg),*),
             "C18" => $f::<c18::C18>($($arg),*),
             other => {
